@@ -45,7 +45,8 @@ Definition run_fun (which : N) (m : mode) (args : list N) : res N :=
   | 4 => f_bits_to_words m (arg args 0)
   | 5 => f_round_up_to_word_bits m (arg args 0)
   | 6 => f_div_round_up m (arg args 0) (arg args 1)
-  | _ => f_bit_offset m (arg args 0) (arg args 1)
+  | 7 => f_bit_offset m (arg args 0) (arg args 1)
+  | _ => Ok (filler_value (negb (arg args 0 =? 0)))
   end.
 
 (* mathematical value; None when the true result does not fit in 64 bits or is undefined *)
@@ -60,7 +61,8 @@ Definition spec_fun (which : N) (args : list N) : option N :=
   | 4 => fits ((a + 63) / 64)
   | 5 => fits ((a + 63) / 64 * 64)
   | 6 => if b =? 0 then None else fits ((a + b - 1) / b)
-  | _ => fits (a * 64 + b)
+  | 7 => fits (a * 64 + b)
+  | _ => Some (if a =? 0 then 0 else 18446744073709551615)
   end.
 
 (* the domains the rustdoc of each helper documents ("May panic if ...") *)
@@ -72,7 +74,8 @@ Definition in_domain (which : N) (args : list N) : bool :=
   | 3 => a * 64 <? 2 ^ 64
   | 4 | 5 => a + 63 <? 2 ^ 64
   | 6 => (a + b <? 2 ^ 64) && negb (b =? 0)
-  | _ => (a * 64 + b <? 2 ^ 64) && (b <? 64)
+  | 7 => (a * 64 + b <? 2 ^ 64) && (b <? 64)
+  | _ => true
   end.
 
 (* spec side for helpers: inside the documented domain the mathematical value must be returned;
